@@ -2,6 +2,7 @@ package main
 
 import (
 	"bufio"
+	"bytes"
 	"encoding/json"
 	"fmt"
 	"io"
@@ -439,12 +440,29 @@ func (p *Parent) absorb(m *msg) {
 }
 
 type ring struct {
-	mu  sync.Mutex
-	buf []byte
+	mu   sync.Mutex
+	head []byte // 16 kB from the announcement of a fatal error / panic on (the stack dump after it can be huge)
+	buf  []byte
 }
 
 func (r *ring) Write(b []byte) (int, error) {
 	r.mu.Lock()
+	from := b
+	if len(r.head) == 0 {
+		from = nil
+		for _, mark := range []string{"runtime: goroutine stack exceeds", "fatal error:", "panic:"} {
+			if i := bytes.Index(b, []byte(mark)); i >= 0 && (i == 0 || b[i-1] == '\n') {
+				from = b[i:]
+				break
+			}
+		}
+	}
+	if k := 1<<14 - len(r.head); k > 0 && len(from) > 0 {
+		if k > len(from) {
+			k = len(from)
+		}
+		r.head = append(r.head, from[:k]...)
+	}
 	r.buf = append(r.buf, b...)
 	if len(r.buf) > 1<<17 {
 		r.buf = append([]byte{}, r.buf[len(r.buf)-(1<<16):]...)
@@ -563,14 +581,14 @@ func (p *Parent) runShard(exe string, shard, nshards int, wg *sync.WaitGroup) {
 				tail = tail[len(tail)-6000:]
 			}
 			killedBySilence := strings.Contains(fmt.Sprint(werr), "killed")
-			w, _ := json.Marshal(map[string]any{"exit": fmt.Sprint(werr), "stderr_tail": tail})
+			w, _ := json.Marshal(map[string]any{"exit": fmt.Sprint(werr), "stderr_head": trunc(string(errRing.head), 4000), "stderr_tail": tail})
 			if killedBySilence {
 				p.mu.Lock()
 				p.inconcl++
 				p.notes = append(p.notes, fmt.Sprintf("case %d: worker silent for 600s wall clock; killed (inconclusive)", idx))
 				p.mu.Unlock()
 			} else {
-				sig := "crash:" + crashSig(tail)
+				sig := "crash:" + crashSig(string(errRing.head)+"\n"+tail)
 				p.absorb(&msg{T: "v", Idx: idx, Sig: sig, Msg: fmt.Sprintf("worker process died while running case %d (%v)", idx, werr), Wit: w})
 			}
 		}
@@ -586,13 +604,36 @@ func (p *Parent) runShard(exe string, shard, nshards int, wg *sync.WaitGroup) {
 	}
 }
 
-func crashSig(tail string) string {
-	for _, ln := range strings.Split(tail, "\n") {
-		if strings.HasPrefix(ln, "fatal error:") || strings.HasPrefix(ln, "panic:") || strings.HasPrefix(ln, "runtime:") {
-			return stripDigits(trunc(strings.TrimSpace(ln), 100))
+func crashSig(text string) string {
+	lines := strings.Split(text, "\n")
+	what := ""
+	for _, ln := range lines {
+		if strings.HasPrefix(ln, "fatal error:") || strings.HasPrefix(ln, "panic:") {
+			what = stripDigits(trunc(strings.TrimSpace(ln), 100))
+			break
 		}
 	}
-	return "unknown"
+	if what == "" {
+		for _, ln := range lines {
+			if strings.HasPrefix(ln, "runtime:") {
+				what = stripDigits(trunc(strings.TrimSpace(ln), 100))
+				break
+			}
+		}
+	}
+	if what == "" {
+		return "unknown"
+	}
+	// the innermost function of the library on the crashing stack
+	for _, ln := range lines {
+		if strings.HasPrefix(ln, modPath) {
+			if i := strings.LastIndex(ln, "("); i > 0 {
+				ln = ln[:i]
+			}
+			return strings.ReplaceAll(what, " ", "_") + "@" + strings.TrimPrefix(ln, modPath)
+		}
+	}
+	return strings.ReplaceAll(what, " ", "_")
 }
 
 // ---------------------------------------------------------------------------
